@@ -445,6 +445,19 @@ def gen_fanin_case(rng: random.Random):
     return dict(n=n, types=types, grp=grp, edges=edges, until=until, beh=beh, init=[], maxloop=100)
 
 
+def delay_async_edges(rng, case):
+    """the connection that carries async_requests becomes time-shifted / weak itself: the input delay of the pair must still
+    be the (zero) delay of the async-requests relation"""
+    for e in [e for e in case['edges'] if e.get('async')]:
+        same_src = [f for f in case['edges'] if f['a'] == e['a'] and f['sa'] == e['sa']]
+        if len(same_src) != 1: continue
+        in_group = bool(case['grp'][e['a']]) and bool(case['grp'][e['b']]) and case['grp'][e['a']][0] == case['grp'][e['b']][0]
+        kind = rng.choice(['ts', 'ts', 'w'] if in_group else ['ts'])
+        if e['sa'] in ('eo', 'e2') and e['da'] == 'i': continue       # would need initial data on an event source
+        e.update(kind=kind, shift=rng.choice([1, 1, 2]) if kind == 'ts' else 0, init=bool(e['da'] == 'i'))
+    return case
+
+
 def gen_lazy_case(rng: random.Random):
     """run-ahead stress for lazy stepping: producers that could run far ahead of their (slow) direct consumers; each
     producer-consumer pair is joined by exactly one connection - plain, time-shifted or weak (inside a common group, with
